@@ -9,6 +9,7 @@ import (
 	"encoding/json"
 	"fmt"
 	"math/rand"
+	"net"
 	"os"
 	"strconv"
 	"sync"
@@ -195,6 +196,66 @@ func latecomer(st *stack.Stack, rng *rand.Rand, idA, idB, wave int, protoA, prot
 	return []ConnObs{oA, oB}
 }
 
+// successor: connection A is served and goes away; connection B, another client altogether, then arrives from the very same
+// source address and port.  Nothing A left behind under that address may reach B.
+func successor(st *stack.Stack, rng *rand.Rand, idA, idB, wave int, protoA, protoB string) []ConnObs {
+	ip := fmt.Sprintf("127.0.%d.%d", 40+wave%50, 2+idA%200)
+	l, err := net.Listen("tcp", ip+":0")
+	if err != nil {
+		return []ConnObs{{ID: idA, Wave: wave, Err: "no source address: " + err.Error()}}
+	}
+	port := l.Addr().(*net.TCPAddr).Port
+	l.Close()
+	var res []ConnObs
+	for n, x := range []struct {
+		id    int
+		proto string
+	}{{idA, protoA}, {idB, protoB}} {
+		d := variant(rng, x.id)
+		if x.proto == "h1" {
+			d.ALPN = []string{"http/1.1"}
+		}
+		pre := &Preamble{Settings: [][2]uint32{{3, uint32(100 + x.id)}, {4, uint32(65536 + 16*x.id)}}, WU: uint32(1000000 + x.id), Order: []string{"masp", "mpas", "mspa", "msap"}[x.id%4]}
+		o := ConnObs{ID: x.id, Wave: wave}
+		var cl *stack.Client
+		for try := 0; try < 20; try++ { // the port is free again as soon as the kernel has dealt with the reset
+			cl, err = stack.DialUTLS(st.Addr, d.Spec(), stack.DialOpts{ALPN: d.ALPN, LocalIP: ip, LocalPort: port})
+			if err == nil || cl != nil {
+				break
+			}
+			time.Sleep(20 * time.Millisecond)
+		}
+		if cl != nil && cl.Raw != nil {
+			msg := cl.Raw.HelloMessage()
+			o.HelloHex = hex.EncodeToString(msg)
+			if a, perr := hello.ParseMessage(msg); perr == nil {
+				o.Abstract = a
+			}
+		}
+		if err != nil {
+			o.Err = err.Error()
+			res = append(res, o)
+			if cl != nil {
+				cl.Reset()
+			}
+			continue
+		}
+		o.Proto = cl.Proto
+		if cl.Proto == "h2" {
+			o.Pre = pre
+		}
+		tags := []string{fmt.Sprintf("c%d-r0", x.id), fmt.Sprintf("c%d-r1", x.id)}
+		o.Err = session(st, cl, pre, tags, nil, func(int) {})
+		collect(st, &o, tags)
+		cl.Reset()
+		if n == 0 {
+			time.Sleep(20 * time.Millisecond)
+		}
+		res = append(res, o)
+	}
+	return res
+}
+
 func main() {
 	out := os.Args[1]
 	seed, _ := strconv.ParseInt(os.Getenv("VERIF_SEED"), 10, 64)
@@ -374,6 +435,13 @@ func main() {
 		for _, pp := range [][2]string{{"h1", "h1"}, {"h1", "h2"}, {"h2", "h1"}, {"h2", "h2"}} {
 			id += 2
 			all = append(all, latecomer(st, rng, id-1, id, 1000+k, pp[0], pp[1])...)
+		}
+	}
+	// successors from the same source address and port, every protocol combination
+	for k := 0; k < pairs; k++ {
+		for _, pp := range [][2]string{{"h1", "h1"}, {"h1", "h2"}, {"h2", "h1"}, {"h2", "h2"}} {
+			id += 2
+			all = append(all, successor(st, rng, id-1, id, 2000+k, pp[0], pp[1])...)
 		}
 	}
 	b, _ := json.Marshal(all)
